@@ -203,6 +203,8 @@ struct AsyncItem : ItemBase
     } else if (a == C02_A_IDLE) {
       for (int k = 0; k < it->act_arg[pos - 1]; k++)
         sim_yield();
+    } else if (a == C02_A_EXPECT_RUN) {
+      c02_wait_item(id);
     }
     return true;
   }
@@ -278,6 +280,9 @@ struct TaskItem : ItemBase
     case C02_A_IDLE:
       for (int k = 0; k < it->act_arg[pos - 1]; k++)
         sim_yield();
+      break;
+    case C02_A_EXPECT_RUN:
+      c02_wait_item(id);
       break;
     }
     return true;
